@@ -75,7 +75,7 @@ def check_C01(tier):
     results = sweep.run(tier, rng)
     # the theorem needs only the certificates on the implementation's artefacts (and the driver
     # model = generated code, which the C08 check ties by execution); no generator mirror is involved
-    ties = cert_ties(results, ["gramWF", "certA", "certT"])
+    ties = cert_ties(results, ["gramWF", "certA", "certT", "codes"])
     violations = []
     runs = 0
     accepted = 0
@@ -1980,12 +1980,12 @@ def check_C13(tier):
            "rule": "distinct input texts: hand-written truncations, every %d-th prefix of the repository's example grammars and of rendered random files, random edits (delete / insert / replace / duplicate with brace, quote, comment and directive fragments); each text through `yaccgo generate go`, `yaccgo debug` (and every 7th through `generate typescript`) as child processes with a %d s deadline, 16 at a time; a hang is re-run alone before it is reported; the ASCII texts also through the in-process front end against the Lean front-end model" % (23 if tier == "quick" else 5, DEADLINE),
            "samples": samples, "outcome_histogram": hist, "slowest_s": round(slowest, 2), "model_compared_texts": len(ascii_cases),
            "trusted_base": TRUSTED + ["wall-clock deadline three orders of magnitude above the normal run time"],
-           "partial": ["the kernel-checked part is the lexer model's totality (lexAll_total: fuel |src|+2 always suffices); the parser model runs on explicit fuel and is tied by correspondence"]}
+           "partial": ["kernel-checked: the lexer model (fuel |src|+2) and the parser model (fuel 2*|tokens|+10) never run out of fuel on any text (C13_front_total); the visitor and the later stages are total Lean functions bounded by the 2000-state cap; the tie to the Go code is the stage-by-stage correspondence and the deadline runs"]}
     return common.conclude(pid, tier, C13_LEVEL, proof, ties[:50], violations, cov, ["texts of a few kilobytes"])
 
 
-C13_THEOREMS = ["YLex.lexAll_total"]
-C13_MODULES = ["Yv.Proofs.YLexTotal"]
+C13_THEOREMS = ["YLex.lexAll_total", "YParse.C13_parse_total", "YParse.parse_eq_instrumented", "YParse.C13_front_total"]
+C13_MODULES = ["Yv.Proofs.YLexTotal", "Yv.Props.C13"]
 C13_LEVEL = "proof"
 
 
